@@ -11,7 +11,7 @@
    them that is empty only if n = 0 or the position is at the end (the `Read` contract; the chain is
    short at volume boundaries). *)
 From Coq Require Import List NArith ZArith Bool Lia.
-From AdltV Require Import Base.Res Base.MachInt Archive.Chain Archive.ChainProofs Exec.C20.
+From AdltV Require Import Base.Res Base.MachInt Archive.Chain Archive.ChainProofs Archive.Paths Archive.PathsProofs Exec.C20.
 Import ListNotations.
 Open Scope N_scope.
 
@@ -95,6 +95,83 @@ Example C20_witness_seek_min_offset_repaired :
   = Ok [RPos 1; RPos 0; RBytes [97]].
 Proof. vm_compute. reflexivity. Qed.
 
+(* ------------------------------------------------------------------------------------------------
+   Part 2 (extraction path logic, model Archive/Paths.v; zip decoding, glob matching and the file
+   system are trusted inputs/assumptions of the model — this half is "partial").
+   [fs] is any file-system state in which the target directory [T] exists ([target_ok]); member names,
+   filter names and the archive are arbitrary; the values of a rename map must be enclosed names
+   (extract_archives only ever uses the archive's file stem). *)
+
+(* whatever the member names, and whether the run ends with Ok or Err: no location outside the target
+   directory (nor the directory entry itself) is created or changed *)
+Theorem C20_extract_confined : forall fs T flt rn ms,
+  target_ok fs T -> rn_ok rn ->
+  forall l, strictly_inside T l = false -> lookup (out_fs (extract_to_dir fs T flt rn ms)) l = lookup fs l.
+Proof. intros fs T flt rn ms HT Hrn. exact (extract_to_dir_confined fs T flt rn ms HT Hrn). Qed.
+
+Theorem C20_extract_archives_confined : forall fs T pattern entries stem sm ms o,
+  target_ok fs T -> enclosed stem = true ->
+  extract_archives fs T pattern entries stem sm ms = Some o ->
+  forall l, strictly_inside T l = false -> lookup (out_fs o) l = lookup fs l.
+Proof. intros fs T pattern entries stem sm ms o HT Hs H. exact (extract_archives_confined fs T pattern entries stem sm ms o HT Hs H). Qed.
+
+(* the reported list is exactly: the filter names that already are files inside T, then, in archive order,
+   the (renamed) names of the members that are enclosed, requested, regular files *)
+Theorem C20_extract_exact_set : forall fs T flt rn ms fs' out,
+  extract_to_dir fs T flt rn ms = Done fs' out ->
+  out = found_before fs T rn flt ++
+        map (fun m => renamed rn (m_name m)) (filter (selected (remaining fs T rn flt)) ms).
+Proof. exact extract_to_dir_exact_set. Qed.
+
+(* no reported name leads outside the target directory *)
+Theorem C20_extract_reports_only_enclosed : forall fs T flt rn ms fs' out,
+  rn_ok rn -> extract_to_dir fs T flt rn ms = Done fs' out -> Forall (fun n => enclosed n = true) out.
+Proof. exact extract_to_dir_reports_enclosed. Qed.
+
+(* extract_archives into a fresh temp dir: exactly the members that match the pattern (or equal its text),
+   are no directory entries, and whose names are enclosed *)
+Theorem C20_extract_archives_exact_set : forall fs T pattern entries stem sm ms fs' out,
+  (forall n, path_is_file fs T n = false) ->
+  (forall b, entries <> [(c_data, b)]) ->
+  extract_archives fs T pattern entries stem sm ms = Some (Done fs' out) ->
+  out = map m_name (filter (selected (Some (matching pattern entries))) ms) /\
+  forall n, In n (matching pattern entries) <->
+            exists b, In (n, b) entries /\ (n = pattern \/ b = true) /\ ends_with_slash n = false.
+Proof.
+  intros fs T pattern entries stem sm ms fs' out Hf Hn H. split; [|apply matching_spec].
+  rewrite (extract_archives_exact_set fs T pattern entries stem sm ms fs' out _ _ Hf (select_members_plain pattern entries stem sm Hn) H).
+  apply map_ext. intros m. reflexivity.
+Qed.
+
+(* contents: after a complete run the file of the last selected member holds exactly its bytes *)
+Theorem C20_extract_last_member_faithful : forall fs T flt rn ms m fs' out,
+  extract_to_dir fs T flt rn (ms ++ [m]) = Done fs' out ->
+  selected (remaining fs T rn flt) m = true ->
+  read_file fs' T (renamed rn (m_name m)) = Some (m_data m).
+Proof. exact extract_to_dir_last_member_faithful. Qed.
+
+(* the start state of the correspondence runs satisfies the hypothesis of the theorems *)
+Theorem C20_start_state_ok : forall T inside,
+  Forall (fun e => fst e <> []) inside -> target_ok (init_fs T inside) T.
+Proof. exact init_fs_target_ok. Qed.
+
+(* non-vacuity: hostile names are rejected, odd ones kept; a run with both *)
+Example C20_enclosed_examples :
+  let b := map (fun c => N.of_nat (Ascii.nat_of_ascii c)) in
+  enclosed [46; 46; 47; 120] = false (* ../x *) /\ enclosed [47; 120] = false (* /x *) /\
+  enclosed [97; 47; 46; 46; 47; 46; 46; 47; 120] = false (* a/../../x *) /\
+  enclosed [97; 47; 46; 46; 47; 120] = true (* a/../x *) /\ enclosed [46; 47; 120] = true (* ./x *) /\
+  enclosed [46; 46; 92; 120] = true (* ..\x is one ordinary component on Unix *).
+Proof. vm_compute. repeat split. Qed.
+Example C20_extract_nonvacuous :
+  extract_to_dir (init_fs T0 []) T0 None []
+    [mm [102] false [1]; mm [46; 46; 47; 101] false [9]; mm [47; 97] false [9];
+     mm [103; 47; 46; 46; 47; 104] false [2]; mm [100; 47] false []; mm [108] false [3]]
+  = Done [(T0 ++ [[108]], F [3]); (T0 ++ [[100]], D); (T0 ++ [[104]], F [2]); (T0 ++ [[103]], D);
+          (T0 ++ [[102]], F [1]); ([], D); ([[116; 109; 112]], D); (T0, D)]
+         [[102]; [103; 47; 46; 46; 47; 104]; [108]].
+Proof. vm_compute. reflexivity. Qed.
+
 Print Assumptions C20_chain_refines_concat.
 Print Assumptions C20_chain_equals_reference_on_full_reads.
 Print Assumptions C20_reference_is_file_in_range.
@@ -103,3 +180,10 @@ Print Assumptions C20_seek_reports_next_read_position.
 Print Assumptions C20_seek_reports_next_single_read_position.
 Print Assumptions C20_reference_is_an_answer.
 Print Assumptions C20_chain_fails_only_on_size_overflow.
+Print Assumptions C20_extract_confined.
+Print Assumptions C20_extract_archives_confined.
+Print Assumptions C20_extract_exact_set.
+Print Assumptions C20_extract_reports_only_enclosed.
+Print Assumptions C20_extract_archives_exact_set.
+Print Assumptions C20_extract_last_member_faithful.
+Print Assumptions C20_start_state_ok.
